@@ -24,3 +24,12 @@ package messages
 //@ ensures only-peerswap-types: result1 == nil ==> (result0 >= 42069 && result0 <= 42085 && result0%2 == 1)
 //@ ensures rejected-is-zero: result1 != nil ==> result0 == 0
 //@ assigns nothing
+
+// C22: a retransmitter is started only after the manager registered it (so that
+// RemoveSender can stop it); the loop itself runs in a goroutine and is outside
+// the verifier (trusted body).
+//@ func (*RedundantMessenger).SendMessage
+//@ property C22
+//@ trusted
+//@ requires @C22 registered-before-start: ghost.senderActive
+//@ assigns nothing
